@@ -399,7 +399,9 @@ pub struct VtChoices {
 	pub empty_block: bool,
 	pub shuffle_blocks: bool,
 	pub shuffle_index: bool,
-	pub shuffle_blobs: bool,
+	/// order of the tile blobs inside a block: 0 = row-major (= tile-index order, what the own writer does),
+	/// 1 = random, 2 = reverse row-major (the FIRST index entry has the LARGEST offset), 3 = column-major
+	pub blob_order: u8,
 	/// equal payloads inside a block share one offset (any size)
 	pub share: bool,
 	pub max_gap: usize,
@@ -407,7 +409,7 @@ pub struct VtChoices {
 }
 impl VtChoices {
 	pub fn plain(fmt: Fmt, comp: Comp) -> VtChoices {
-		VtChoices { fmt, comp, meta: None, range_mode: 0, empty_block: false, shuffle_blocks: false, shuffle_index: false, shuffle_blobs: false, share: false, max_gap: 0, bbox: [-1800000000, -850511287, 1800000000, 850511287] }
+		VtChoices { fmt, comp, meta: None, range_mode: 0, empty_block: false, shuffle_blocks: false, shuffle_index: false, blob_order: 0, share: false, max_gap: 0, bbox: [-1800000000, -850511287, 1800000000, 850511287] }
 	}
 }
 pub struct VtEncoded {
@@ -500,8 +502,14 @@ pub fn encode_versatiles(tiles: &TileMap, ch: &VtChoices, rng: &mut Rng) -> VtEn
 		let ts = groups.get(&(b.z, b.bx, b.by)).unwrap_or(&empty);
 		// which payload goes where
 		let mut order: Vec<usize> = (0..ts.len()).collect();
-		if ch.shuffle_blobs {
-			shuffle(&mut order, rng);
+		match ch.blob_order {
+			1 => shuffle(&mut order, rng),
+			2 => {
+				order.sort_by_key(|i| (ts[*i].1, ts[*i].0));
+				order.reverse();
+			}
+			3 => order.sort_by_key(|i| (ts[*i].0, ts[*i].1)),
+			_ => order.sort_by_key(|i| (ts[*i].1, ts[*i].0)),
 		}
 		let mut placed: BTreeMap<&Vec<u8>, (u64, u32)> = BTreeMap::new();
 		let mut loc: BTreeMap<(u32, u32), (u64, u32)> = BTreeMap::new();
